@@ -101,7 +101,7 @@ Section Engine.
             if sub && Nat.eqb oa Bottom then Ok (Some true)
             else if (match c_upper cb, c_lower cb with None, None => false | _, _ => true end) && negb (basic oa)
             then Ok (Some false)
-            else if (match c_upper cb with Some u => osub true u oa | None => false end) then Ok (Some false)
+            else if (match c_upper cb with Some u => negb (osub false oa u) | None => false end) then Ok (Some false)
             else if (match c_lower cb with
                      | Some l => negb (osub false l oa) && negb (sub && osub false oa l)
                      | None => false end) then Ok (Some false)
@@ -112,7 +112,7 @@ Section Engine.
             if sub && Nat.eqb ob Top then Ok (Some true)
             else if (match c_upper ca, c_lower ca with None, None => false | _, _ => true end) && negb (basic ob)
             then Ok (Some false)
-            else if (match c_lower ca with Some l => osub true ob l | None => false end) then Ok (Some false)
+            else if (match c_lower ca with Some l => negb (osub false l ob) | None => false end) then Ok (Some false)
             else if (match c_upper ca with
                      | Some u => negb (osub false u ob) && negb (sub && osub false ob u)
                      | None => false end) then Ok (Some false)
